@@ -12,3 +12,17 @@ NOT_APPLICABLE.update({
 })
 for _p in ("C01", "C02", "C03", "C05", "C06", "C07", "C08", "C09", "C10", "C12", "C13", "C14", "C15", "C16", "C17", "C18", "C19", "C20"):
     NOT_APPLICABLE.setdefault(_p, "check under construction in this build round; not yet claimed")
+
+add("C05",
+    "CrossHair symbolic execution of AuthnResponse.loads/verify (solicitation, destination, audience, recipient checks) on handed-over objects; Destination also as a symbolic string decided by z3",
+    "Bounded symbolic execution of the real addressing/solicitation code over the full product of InResponseTo x confirmation InResponseTo x Destination x audience restrictions x Recipient x allow_unsolicited x conv_info x pattern: "
+    "acceptance implies every clause of the property, conforming responses are accepted and routed to the right caller; every Destination string of <= 40 chars decided by z3.",
+    "Trusted: CrossHair/z3; parsed-object hand-over; fixed valid clock; AST cuts. Catalogues are finite (listed in evidence bounds); dest_string cuts schema validation.",
+    "DESIGN.md 3/C05")
+add("C06",
+    "CrossHair symbolic execution of status_ok/_verify/verify over the finite status x second-level x version table, exception class compared with an independently written table",
+    "Exhaustive (finite table) symbolic execution: every non-Success status and every non-2.0 version is rejected without identity, with the documented exception class per standard second-level code; Success+2.0 is accepted. Requests: three request classes x versions.",
+    "Trusted: CrossHair/z3; parsed-object hand-over; expected classes transcribed by hand from the documented names.",
+    "DESIGN.md 3/C06")
+for _p in ("C05", "C06"):
+    NOT_APPLICABLE.pop(_p, None)
